@@ -7,7 +7,7 @@
    not yet covered by a theorem are decided by the implementation <-> specification <->
    hardware differential run only (listed as unproved_forms in the evidence). *)
 From Coq Require Import ZArith Bool List.
-From AxV Require Import Bits Outcome Codes Iced State Rt Mem Trace Exec ExecP FrameTac FrameP RegFile RegsP ISA CodeSem IsaP OperandP MovP ByteStore RmP AluRmP DivP Examples.
+From AxV Require Import Bits Outcome Codes Iced State Rt Mem Trace Exec ExecP FrameTac FrameP RegFile RegsP ISA CodeSem IsaP OperandP MovP ByteStore RmP AluRmP Alu32P DivP Examples.
 From AxG Require Import Flags Regs Operand Helpers Dispatch Frame I_lea I_mov I_div I_idiv I_cmovae I_cmove I_cmovne.
 Local Open Scope Z_scope.
 
@@ -42,6 +42,23 @@ Proof.
   - exact (cmovae_r64_rm64_refines c i s Hwf HI Hn K0 H0 Hs Ec).
   - exact (cmove_r64_rm64_refines c i s Hwf HI Hn K0 H0 Hs Ec).
   - exact (cmovne_r64_rm64_refines c i s Hwf HI Hn K0 H0 Hs Ec).
+Qed.
+
+(* the same at 32 bits: the destination is zero-extended to 64 bits, also by a CMOVcc whose
+   condition is false *)
+Theorem C01_mov_cmov_r32_rm32 : forall c i s,
+  wf_regs s -> Inv (mem s) -> i_op_count i = 2 ->
+  i_op_kind i 0 = OK_Register -> is_gpr32 (i_op_register i 0) = true -> rm32_shape i 1 ->
+  (i_code i = C_Mov_r32_rm32 -> refines32 i s (SMov 32) (instr_mov_r32_rm32 c i s)) /\
+  (i_code i = C_Cmovae_r32_rm32 -> refines32 i s (SCmov CC_AE 32) (instr_cmovae_r32_rm32 c i s)) /\
+  (i_code i = C_Cmove_r32_rm32 -> refines32 i s (SCmov CC_E 32) (instr_cmove_r32_rm32 c i s)) /\
+  (i_code i = C_Cmovne_r32_rm32 -> refines32 i s (SCmov CC_NE 32) (instr_cmovne_r32_rm32 c i s)).
+Proof.
+  intros c i s Hwf HI Hn K0 H0 Hs. repeat split; intros Ec.
+  - exact (mov_r32_rm32_refines c i s Hwf HI Hn K0 H0 Hs Ec).
+  - exact (cmovae_r32_rm32_refines c i s Hwf HI Hn K0 H0 Hs Ec).
+  - exact (cmove_r32_rm32_refines c i s Hwf HI Hn K0 H0 Hs Ec).
+  - exact (cmovne_r32_rm32_refines c i s Hwf HI Hn K0 H0 Hs Ec).
 Qed.
 
 (* DIV r/m64: quotient and remainder of RDX:RAX by the register or memory divisor (the complete
@@ -122,3 +139,4 @@ Print Assumptions C01_div_rm64.
 Print Assumptions C01_idiv_rm64_partial.
 Print Assumptions C01_idiv64_negative_divisor_refuted.
 Print Assumptions C01_mov_cmov_r64_rm64.
+Print Assumptions C01_mov_cmov_r32_rm32.
